@@ -137,11 +137,20 @@ impl Completions {
         // Process the remaining completions events that are ready.
         // NOTE: we explitly enter here to ensure we get the latests completions
         // from the kernel, poll doesn't guarantee that.
-        if let Err(err) = shared.enter(1, libc::IORING_ENTER_GETEVENTS, Some(Duration::ZERO)) {
-            log::warn!("error getting last completions: {err}");
-        }
-        if let Err(err) = self.poll(shared, Some(Duration::ZERO)) {
-            log::warn!("error processing last completions: {err}");
+        // NOTE: the completion queue can be smaller than the number of
+        // completions we're owed (the kernel keeps the rest on its overflow
+        // list), so keep going until a pass doesn't process anything.
+        loop {
+            if let Err(err) = shared.enter(1, libc::IORING_ENTER_GETEVENTS, Some(Duration::ZERO)) {
+                log::warn!("error getting last completions: {err}");
+            }
+            let head = load_kernel_shared(self.entries_head);
+            if let Err(err) = self.poll(shared, Some(Duration::ZERO)) {
+                log::warn!("error processing last completions: {err}");
+            }
+            if load_kernel_shared(self.entries_head) == head {
+                break;
+            }
         }
     }
 }
